@@ -27,7 +27,7 @@ META = {
     "technique": "boundary-value generation around every size limit with an arithmetic oracle over bytes handed to the "
                  "application (recording delegate), peer-visible refusal and connection fate",
     "level_text": "Header blocks and bodies are generated at limit-1/limit/limit+1/2x/100x for each of max_header_size, "
-                  "max_body_size and a per-request set_max_body_size override (lower and higher, set in headers_received "
+                  "max_body_size (values from 0 = no request body accepted, up to 64 KiB) and a per-request set_max_body_size override (lower and higher, set in headers_received "
                   "of a raw delegate and in prepare() of a @stream_request_body handler), for Content-Length, chunked "
                   "(one chunk, 1-byte chunks, a chunk straddling the limit) and gzip bodies (1:1, zero bombs, wire size at "
                   "the limit, multi-member) under several segmentations; the sum of data_received lengths, finish/close, "
@@ -38,7 +38,7 @@ META = {
     "design_ref": "DESIGN.md §4 C04",
     "engine": "wire",
 }
-RULE = ("cases are (limit configuration, framing, size, override, handler, schedule); sizes are limit-1, limit, limit+1, 2x, "
+RULE = ("cases are (limit configuration incl. the limit value 0, framing, size, override, handler, schedule); sizes are limit-1, limit, limit+1, 2x, "
         "100x of the effective limit (decoded size, and wire size for gzip); non-trivial = size within +-1 of a limit or a "
         "gzip ratio > 10; distinct by the parameter tuple")
 FLOORS = {"quick": 600, "thorough": 8000}
@@ -51,7 +51,8 @@ REQUIRED_COUNTERS = ["oracle_evals", "must_accept", "must_refuse", "delivered_bo
                      "override_cases"]
 SHARD_TIMEOUT = {"quick": 240, "thorough": 3000}
 
-LIMITS = [1, 7, 64, 1000, 65536]
+# 0 is a limit value like any other ("accept no request body at all"): every non-empty body is larger than it
+LIMITS = [0, 1, 7, 64, 1000, 65536]
 HEADER_LIMITS = [64, 300, 4096, 65536]
 FRAMINGS = ["cl", "chunked1", "chunked-bytes", "chunked-straddle", "gzip-cl", "gzip-chunked", "gzip-bomb", "gzip-wire",
             "gzip-multi"]
@@ -76,6 +77,10 @@ def sizes_for(L, big_cap=300000):
     s = {max(0, L - 1), L, L + 1, 2 * L, min(100 * L, big_cap)}
     if L > 2:
         s.add(L // 2)
+    if L == 0:
+        # multiples of 0 collapse onto the limit itself: add explicit "above" and "far above" sizes (past one
+        # read chunk, too), as every other limit value gets through 2x / 100x
+        s |= {2, 3, 100, 5000, 70000}
     return sorted(x for x in s)
 
 
